@@ -556,6 +556,21 @@ func runParse(_ *testing.T, p Parse) (v engine.Verdict) {
 				return engine.Failf("C13/parsed-params-differ", "member #%d: params %s, want %s", i, pr.Params, m.Params)
 			}
 		}
+		// ToRequest (documented): nil for a flagged entry, else an equivalent Request
+		switch rq := pr.ToRequest(); {
+		case pr.Error != nil && rq != nil:
+			return engine.Failf("C13/torequest-for-flagged-entry", "member #%d is flagged (%v) but ToRequest returned a request", i, pr.Error)
+		case pr.Error == nil && rq == nil:
+			return engine.Failf("C13/torequest-nil", "member #%d is not flagged but ToRequest returned nil", i)
+		case pr.Error == nil && (m.Class == refrpc.Call || m.Class == refrpc.Notification):
+			// (IsNotification of the converted request is not compared: for an entry
+			// without id it reports false at the pinned commit - ToRequest keeps an
+			// empty, non-nil id - which contradicts "equivalent" in its doc comment
+			// but is outside what C13 states; see DESIGN 12.3d.)
+			if rq.Method() != pr.Method || rq.ID() != pr.ID || (len(pr.Params) != 0 && rq.ParamString() != string(pr.Params)) {
+				return engine.Failf("C13/torequest-differs", "member #%d: ToRequest gives method %q id %q params %s, the entry has %q %q %s", i, rq.Method(), rq.ID(), rq.ParamString(), pr.Method, pr.ID, pr.Params)
+			}
+		}
 		if m.Class != refrpc.Call {
 			nt = true
 		}
